@@ -290,6 +290,39 @@ def r20b(rep, F):
             'setLocalSeed does not store the seed and reseed generator_ with it')
 
 
+def r20f(rep, F):
+    rep.rule('R20f', 'every variate generator of an RNG draws from THAT RNG\'s engine: a helper object that owns generators of its own (the '
+                     'spherical-data cache: one boost::variate_generator per dimension) holds the engine by pointer or reference, never a '
+                     'copy.  A by-value engine is a snapshot taken when the dimension was first used: setLocalSeed() reseeds generator_ but '
+                     'the snapshots run on, so the stream after reseeding differs from the first pass')
+    n = 0
+    for name, rs in sorted(F.records.items()):
+        if not name.startswith('ompl::RNG'):
+            continue
+        for r in rs:
+            for fl in r.get('fields', []):
+                ty = fl.get('canon') or fl.get('ty') or ''
+                for m in re.finditer(r'variate_generator<', ty):
+                    depth, eng = 0, ''
+                    for ch in ty[m.end():]:
+                        if ch == '<':
+                            depth += 1
+                        elif ch == '>':
+                            if depth == 0:
+                                break
+                            depth -= 1
+                        elif ch == ',' and depth == 0:
+                            break
+                        eng += ch
+                    n += 1
+                    eng = eng.strip()
+                    ok = eng.endswith('*') or eng.endswith('&')
+                    rep.add('R20f', name, 'engine-shared:' + fl['name'], ok, r.get('loc', ''),
+                            'variate generators hold the engine as %s' % eng if ok else
+                            'the variate generators in %s hold the engine BY VALUE (%s): a private copy that setLocalSeed() does not reseed' % (fl['name'], eng))
+    rep.require_count('R20f', 'variate-generator members of RNG helper classes', n, 1)
+
+
 def r20c(rep, F):
     rep.rule('R20c', 'clock discipline in planner code (%s): each value read from a clock (ompl::time::now, chrono now()) and each '
                      'library-created timedPlannerTerminationCondition is followed through local definitions; allowed sinks are '
@@ -548,6 +581,7 @@ def run(rep):
                          any(d in f.file for d in PLANNER_DIRS))
     r20a(rep, F)
     r20b(rep, F)
+    r20f(rep, F)
     r20c(rep, F)
     nd = r20d(rep, F)
     r20e(rep, F)
